@@ -6,6 +6,7 @@ import (
 	"go/constant"
 	"go/token"
 	"go/types"
+	"hash/fnv"
 	"os"
 	"path/filepath"
 	"regexp"
@@ -57,21 +58,21 @@ type Ctx struct {
 	specFiles map[string]*ast.File // pkgpath -> contract file
 	repoDir   string
 
-	gdecls    []string // global declarations (datatypes, functions, literals)
-	gax       []Axiom
+	gdecls           []string // global declarations (datatypes, functions, literals)
+	gax              []Axiom
 	ptrGlobals       []string
 	globalFieldFacts []globalFieldFact
 	byteGlobals      []byteGlobal
-	declared  map[string]bool
-	typeTags  map[string]int
-	structDT  map[string]bool
-	specFuncs map[string]*specFuncInfo
-	litNames  map[string]string
-	immutOK   map[string]string // immutable field -> "" if check passed, else violation text
-	notes     map[string]bool   // assumptions actually used
-	lemmas    []*Contract
-	lemmaObls []*Obligation
-	lemmaDecl []string
+	declared         map[string]bool
+	typeTags         map[string]int
+	structDT         map[string]bool
+	specFuncs        map[string]*specFuncInfo
+	litNames         map[string]string
+	immutOK          map[string]string // immutable field -> "" if check passed, else violation text
+	notes            map[string]bool   // assumptions actually used
+	lemmas           []*Contract
+	lemmaObls        []*Obligation
+	lemmaDecl        []string
 }
 
 var qualIfaceRe = regexp.MustCompile(`^([a-z][A-Za-z0-9_]*)\.([A-Z][A-Za-z0-9_]*)\.([A-Za-z0-9_]+)$`)
@@ -456,7 +457,15 @@ func (c *Ctx) typeTag(t types.Type) int {
 	if v, ok := c.typeTags[n]; ok {
 		return v
 	}
-	v := len(c.typeTags) + 1
+	// content-derived tag (stable across runs and selections)
+	h := fnv.New32a()
+	h.Write([]byte(n))
+	v := int(h.Sum32()&0x3fffffff) + 1
+	for _, other := range c.typeTags {
+		if other == v {
+			v++
+		}
+	}
 	c.typeTags[n] = v
 	return v
 }
@@ -501,10 +510,14 @@ func (c *Ctx) strLit(v string) *Term {
 	if n, ok := c.litNames[v]; ok {
 		return T(n, SStr)
 	}
-	name := fmt.Sprintf("lit%d_%s", len(c.litNames), sanitize(v))
-	if len(name) > 40 {
-		name = name[:40]
+	// content-derived name: the same literal has the same name in every run and selection
+	h := fnv.New32a()
+	h.Write([]byte(v))
+	san := sanitize(v)
+	if len(san) > 24 {
+		san = san[:24]
 	}
+	name := fmt.Sprintf("lit_%08x_%s", h.Sum32(), san)
 	c.litNames[v] = name
 	c.gdecls = append(c.gdecls, fmt.Sprintf("(declare-fun %s () Str)", name))
 	var b strings.Builder
